@@ -50,6 +50,30 @@ CHECKS = {
             "wrapper that also stays armed during in-process CLI runs; -n counts compared with reference counts.",
             "trusts select_ref (vf/refmodels.py); irrelevant flag bits are sampled, not enumerated",
             "exhaustive enumeration under a reference-model monitor on considerPEL"),
+    "C08": ("exploration", "4.C08",
+            "peltool main() runs in-process on generated directories for -n/-l/-a under option sets x {plain,-r,-e,-x}; a "
+            "relational checker compares counts, ordered entry-id sequences, reverse order, extension filtering, every "
+            "-l field with the -a document of the same id, and --hex dumps with the files' bytes.",
+            "trusts the directory model and select_ref; ASCII names without leading dot",
+            "relational (metamorphic) monitor over CLI executions"),
+    "C09": ("fault_enumeration", "4.C09",
+            "For every directory mode M the stdout/exit status/-j files of M(D+J) are compared with M(D), J enumerated "
+            "from truncations, byte corruptions, structure-aware edits, random/empty files and nested directories, "
+            "classified per mode; stdout is captured in-process so stray prints of any decoder are seen.",
+            "junk classification uses the decoder's own verdict on the single file",
+            "metamorphic fault enumeration over CLI executions"),
+    "C10": ("exploration", "4.C10",
+            "--plid (5 spellings of every id incl. boundary/short/shared ids), --bmc-id, -i, --src (all-length substrings) "
+            "and --src-exclude run in-process without selection options on directories mixing hidden/non-serviceable PELs; "
+            "results are compared with the directory model by set/document equality.",
+            "trusts the directory model; guards: unique ids in names, no reference code substring of another",
+            "reference-model monitor over CLI executions"),
+    "C11": ("exploration", "4.C11",
+            "Recursive (path,type,size,sha1) snapshots before/after every in-process CLI run plus a sys.addaudithook log of "
+            "mutating file-system calls with their repository call site: -d removes at most one matching top-level file, "
+            "-D exactly the top-level files, -j creates only <name>.<eid>.json, every other mode nothing.",
+            "audit hook sees Python-level events only; no symlinks",
+            "snapshot differ + audit-hook event log checker"),
 }
 
 TECH_DEFAULT = "runtime monitoring"
